@@ -23,14 +23,16 @@ META = {
                  'query._vars and DB-API arguments vs in-place evaluation in generated caller scopes',
     'level_text': 'Bounded-exhaustive over all operator trees up to a node bound over a precedence-complete operator '
                   'set plus random expressions of the full grammar for the round trip (each decided exactly on all '
-                  'truth assignments of <= 4 free names), and random typed expressions in 8 query forms x generated '
-                  'scope layouts for the end-to-end part. Holds only for what was generated.',
+                  'truth assignments of <= 4 free names), the same for the trees pony\'s decompiler hands to ast2src, and '
+                  'random typed expressions in 10 query forms x generated scope layouts for the end-to-end part. Holds '
+                  'only for what was generated.',
     'level_note': 'Trusted: CPython compile/eval, ast.parse/ast.unparse (to write the generated source), the tracer '
                   'algebra, vlib/dbapi.Recorder. The known-finding classification re-renders with pony\'s own renderer, '
                   'so a disagreement with a second cause is still reported.',
     'rule': 'round trip: case = expression source; exhaustive part = every operator tree with <= N nodes (quick N=5) over '
             '{or, and, not, <, |, +, *, unary -, **, .attr, call, [index], if-else, lambda, f-string, f-string with '
-            'conversion+spec+literal braces}; random part = 3-26 node expressions of the full grammar. end to end: case = '
+            'conversion+spec+literal braces}; random part = 3-26 node expressions of the full grammar (parsed, and as '
+            'decompiled lambda bodies when the decompiled tree itself is faithful). end to end: case = '
             '(query form, scope layout, expression source); expression of static type int/str/bool over ints, strings, a '
             'list, a dict, an object and functions of the caller scope. Non-trivial = at least 2 nodes and at least one name.',
     'assumptions': ['expressions without side effects (evaluation count/order is not observed)',
